@@ -164,7 +164,7 @@ func execGBatch(sc *GBatchSc, choose chooser) (GBatchObs, []string) {
 	fs := &FlowScenario{Kind: sc.Kind, Ctx0: "live", Nodes: []NodeDef{{ID: 0, Batch: &cfg}},
 		LeafScripts: []LeafScript{}, BatchScripts: []BatchScript{bs}}
 	e := &runtimeEnv{sc: fs, leafScr: map[[2]int]*LeafScript{}, batchScr: map[[2]int]*BatchScript{{0, 0}: &fs.BatchScripts[0]},
-		nodes: map[int]flyt.Node{}, rts: map[int]*nodeRT{}}
+		nodes: map[int]flyt.Node{}, rts: map[int]*nodeRT{}, valueNodes: map[int]*leafImpl{}}
 	rt := &nodeRT{env: e, id: 0, visit: -1}
 	g := &gateCtl{parked: map[[2]int]chan struct{}{}}
 	b := &batchImpl{rt: rt, cfg: &cfg, attempts: map[[2]int]int{}, itemTok: map[int][]int{}, gate: g.gate}
